@@ -6,13 +6,20 @@ from mc.core import Agg, V
 from mc.explorer import Slot, World, Outcome
 from mc.models import obs, is_table
 
-RULE = ("breadth-first exploration of operation histories from 4 seed worlds (a vector and a table; two vectors over one caller tuple; "
+RULE = ("H: breadth-first exploration of operation histories from 4 seed worlds (a vector and a table; two vectors over one caller tuple; "
         "a table and the vectors it was built from; a table with two derived tables), pool of <=5 live objects, ~60 event kinds "
         "(constructors, derivations copy/slice/mask/select/column views/stack/transpose/sort/join/arithmetic, every in-place write form on "
         "vectors, column views and tables incl. attribute assignment of a donor vector, renames, failing writes, read-only bundles); "
         "states deduplicated by a canonical heap hash. Oracle: after every event every object outside the event's target set (closed under "
         "the SHADOW sharing relation, never under real identity) observes exactly its previous contents, names and dtypes; events that raise "
-        "change nothing. non-trivial = transition that is a successful in-place write or a refused write")
+        "change nothing. "
+        "E (mc/purity.py): operand kinds (13) x provenance forms (vector, live column view, donor of a table, dtype made nullable by an earlier "
+        "write, table, row) x every operator with every scalar / list / vector / table second operand in both orders, every public "
+        "no-argument method and property found at run time, indexing forms, joins, aggregate, window, sort, stacking: (purity) every "
+        "scenario object observes type-exactly the same before and after, whether the operation returns or raises; (deferred) the result "
+        "is NOT looked at, the operands are then written in place by every write form, and only then the result is observed - it must "
+        "equal the same derivation on an independently built scenario; (backwrite) a write into the result changes no operand. "
+        "non-trivial = transition that is a successful in-place write or a refused write")
 ASSUMPTIONS = ["fresh-only virtual allocator: storage identities are never recycled inside this check (C15 owns that hazard)",
                "AliasError refusals are accepted here if they change nothing; whether they are justified is C15's subject",
                "element values are small ints/floats; written values are old+1 so every write is observable"]
@@ -535,7 +542,12 @@ def check(ctx):
     pool = ctx.pick(4, 4)
     drv = Driver(pool=pool)
     explorer.bfs(drv, depth, agg)
-    agg.notes["bound"] = f"depth<={depth} events from each of 4 seed worlds, pool<={pool} objects"
+    from mc import purity
+    units = purity.plan(level_full_kinds=ctx.pick(("int", "int?", "float", "str", "date", "object"), tuple(purity.KINDS)))
+    for p in core.pmap(purity.unit_purity, units):
+        agg.merge(p)
+    agg.notes["bound"] = (f"H: depth<={depth} events from each of 4 seed worlds, pool<={pool} objects; "
+                          f"E: {len(units)} (operand kind x provenance form x second operand) scenarios x every derivation x every later write")
     agg.sample({"seed_worlds": [[list(e) for e in s] for s in drv.seeds()]})
     return agg
 
